@@ -54,6 +54,10 @@ def run(ctx):
     balance_rule(ctx, "C09.R1")
     bestmove_rule(ctx, "C09.R2")
     r4_flags_and_iterations(ctx)
+    # the per-go node counter also paces the message / time poll (every 100,000 nodes): a counter that is not restarted
+    # by every go makes a later go poll - and abort - at its first node (shared with C16.R4)
+    from . import c16
+    c16.r4_one_counter(ctx)
     # 'an interrupted search still answers with exactly one bestmove': the search thread must not die between the
     # interruption and the answer (same inventory as C07.R4)
     from . import c07
